@@ -175,13 +175,92 @@ def _buffer_trace(copy, dcs):
     return out
 
 
+def _split_constant_tuples(stmts):
+    """`a, b, c = None, 0, 0` (constants only on the right) -> three assignments, in every nested statement list."""
+    out = []
+    for st in stmts:
+        for f_ in ('body', 'orelse', 'finalbody'):
+            v = getattr(st, f_, None)
+            if isinstance(v, list) and v and isinstance(v[0], ast.stmt):
+                setattr(st, f_, _split_constant_tuples(v))
+        if isinstance(st, ast.Assign) and len(st.targets) == 1 and isinstance(st.targets[0], ast.Tuple) and isinstance(st.value, ast.Tuple) \
+                and len(st.targets[0].elts) == len(st.value.elts) and all(isinstance(t, ast.Name) for t in st.targets[0].elts) \
+                and all(isinstance(v, ast.Constant) for v in st.value.elts):
+            for t, v in zip(st.targets[0].elts, st.value.elts):
+                out.append(ast.copy_location(ast.Assign(targets=[ast.Name(id=t.id, ctx=ast.Store())], value=v, lineno=st.lineno), st))
+        else:
+            out.append(st)
+    return out
+
+
+def _merge_alloc_then_use(stmts):
+    """`if _buffer is None and C: ALLOC` immediately followed by `if _buffer is not None: Y else: Z`, where ALLOC binds _buffer to a fresh
+    array, is `if C or _buffer is not None: (if _buffer is None: ALLOC); Y  else: Z` (case split on _buffer is None x C; C does not read what
+    ALLOC writes)."""
+    for st in stmts:
+        for f_ in ('body', 'orelse'):
+            v = getattr(st, f_, None)
+            if isinstance(v, list) and v and isinstance(v[0], ast.stmt):
+                _merge_alloc_then_use(v)
+    for i in range(len(stmts) - 1):
+        a, b = stmts[i], stmts[i + 1]
+        if not (isinstance(a, ast.If) and not a.orelse and isinstance(b, ast.If) and b.orelse and unparse(b.test) == '_buffer is not None'):
+            continue
+        t = a.test
+        if not (isinstance(t, ast.BoolOp) and isinstance(t.op, ast.And) and len(t.values) == 2):
+            continue
+        vals = list(t.values)
+        nb = [v for v in vals if unparse(v) == '_buffer is None']
+        other = [v for v in vals if unparse(v) != '_buffer is None']
+        if len(nb) != 1 or len(other) != 1:
+            continue
+        binds = [x for x in a.body if isinstance(x, ast.Assign) and unparse(x.targets[0]) == '_buffer' and isinstance(x.value, ast.Call)]
+        written = set()
+        for x in a.body:
+            written |= stores_in(x)
+        if len(binds) != 1 or written & names_in(other[0]):
+            continue
+        inner = ast.copy_location(ast.If(test=nb[0], body=a.body, orelse=[]), a)
+        merged = ast.copy_location(ast.If(test=ast.BoolOp(op=ast.Or(), values=[other[0], b.test]), body=[inner] + b.body, orelse=b.orelse), a)
+        stmts[i:i + 2] = [merged]
+        return True
+    return False
+
+
+def _break_when_short(W):
+    """In the last statement of the chunk loop: `if _pos < _size: break` followed by the frame completion, at the end of the buffered branch,
+    is `if _pos == _size: <completion>`.  Lemma (its premises are the obligations of S2/S4, which are checked on the rewritten form): with
+    m = min(_size - _pos, len(block)), _pos += m and block = block[m:], `_pos < _size` afterwards means m < _size - _pos_old, so m = len(block)
+    and the chunk is exhausted: leaving the loop and falling through to its test `len(block)` are the same; and _pos <= _size always."""
+    if not W.body or not isinstance(W.body[-1], ast.If) or unparse(W.test) != 'len(block)':
+        return False
+    last = W.body[-1]
+    for blk in (last.body, last.orelse):
+        for i, st in enumerate(blk):
+            if isinstance(st, ast.If) and not st.orelse and len(st.body) == 1 and isinstance(st.body[0], ast.Break) \
+                    and unparse(st.test).replace(' ', '') in ('_pos<_size', '_size>_pos', '_pos!=_size') and i + 1 < len(blk) \
+                    and any(isinstance(x, ast.AugAssign) and unparse(x.target) == '_pos' for x in blk[:i]):
+                rest = blk[i + 1:]
+                eq = ast.Compare(left=ast.Name(id='_pos', ctx=ast.Load()), ops=[ast.Eq()], comparators=[ast.Name(id='_size', ctx=ast.Load())])
+                blk[i:] = [ast.copy_location(ast.If(test=eq, body=rest, orelse=[]), st)]
+                return True
+    return False
+
+
 def run(chk):
     src = chk.src
     dfn, cfn = src.func(AS, D), src.func(AS, C)
     from ..core.srcmodel import sink_optional_tail
+    from ..core.hodpass import _relink
     for _ in range(3):
         if not sink_optional_tail(dfn.body):       # `frame = None; if ...: frame = ...; if frame is not None: <decompress tail>` -> tail in each arm
             break
+    dfn.body = _split_constant_tuples(dfn.body)
+    _merge_alloc_then_use(dfn.body)
+    for w_ in [n for n in walk_no_nested(dfn) if isinstance(n, ast.While)]:
+        _break_when_short(w_)
+    ast.fix_missing_locations(dfn)
+    _relink(dfn)
     chk.explanation = ('Chunk independence is a history property; decided here are the pairing/agreement conditions of the frame '
                        'reassembly machine that are necessary for it, on every path of the structured control flow: writer and reader '
                        'use one length-prefix format and every literal header length equals its size (S1); every prefix that is read '
@@ -413,8 +492,22 @@ def run(chk):
         blk = mk[0]._parent.body
         okmk = any(isinstance(s, ast.Assign) and unparse(s.targets[0]) == '_pos' and unparse(s.value) == '0' for s in blk) and \
             isinstance(mk[0]._parent, ast.If) and unparse(mk[0]._parent.test) == '_buffer is None'
+    if not okmk and len(mk) == 1 and unparse(mk[0].value.args[0]) == '_size' and isinstance(mk[0]._parent, ast.If) and unparse(mk[0]._parent.test) == '_buffer is None':
+        # the cursor is not zeroed at creation: then `_buffer is None` must imply `_pos == 0`: zero at entry, zeroed in every statement list that
+        # releases the buffer, and advanced only where a buffer exists (the copy's own statement list)
+        rel = [n for n in walk_no_nested(dfn) if isinstance(n, ast.Assign) and unparse(n.targets[0]) == '_buffer' and unparse(n.value) == 'None']
+        entry0 = any(isinstance(s_, ast.Assign) and unparse(s_.targets[0]) == '_pos' and unparse(s_.value) == '0' for s_ in dfn.body)
+        rewound = all(any(isinstance(s_, ast.Assign) and unparse(s_.targets[0]) == '_pos' and unparse(s_.value) == '0' for s_ in getattr(n._parent, 'body', []) + getattr(n._parent, 'orelse', []))
+                      for n in rel if n._parent is not dfn)
+        pos_stores = [n for n in walk_no_nested(W) if isinstance(n, (ast.Assign, ast.AugAssign)) and '_pos' in stores_in(n)]
+        copy_blk = copy[0]._parent.body if len(copy) == 1 else []
+        only_buffered = all(unparse(getattr(n, 'value', None)) == '0' and isinstance(n, ast.Assign) or any(n is x for x in copy_blk) for n in pos_stores)
+        okmk = entry0 and rewound and only_buffered and bool(rel)
     chk.check(okmk, 'C14-S4', AS, D, 'buffer created with _size bytes and _pos = 0, only when none is active', '', 'buffer creation does not size the buffer by the frame length / zero the cursor', node=mk[0] if mk else W)
-    usebuf = [n for n in walk_no_nested(W) if isinstance(n, ast.If) and '_buffer is not None' in unparse(n.test) and 'len(block) < _size' in unparse(n.test)]
+    def _choice(t):
+        vals = [unparse(v).replace(' ', '') for v in (t.values if isinstance(t, ast.BoolOp) and isinstance(t.op, ast.Or) else [t])]
+        return len(vals) == 2 and '_bufferisnotNone' in vals and any(v in vals for v in ('len(block)<_size', '_size>len(block)', 'notlen(block)>=_size'))
+    usebuf = [n for n in walk_no_nested(W) if isinstance(n, ast.If) and _choice(n.test)]
     chk.check(len(usebuf) == 1, 'C14-S4', AS, D, 'buffered path taken iff the frame is incomplete in this chunk or a buffer is active', '',
               'the choice between buffered and direct decompression changed: a partially buffered frame could be decompressed directly', node=W, nontrivial=False)
     # ---- S5
